@@ -37,11 +37,22 @@ where
   pub fn next(&self, x: T) {
     self.fn_next.call_if_available(x);
   }
+  // The error slot doubles as the terminal gate: whoever empties it delivers
+  // the one terminal notification, and nothing is delivered after it.
   pub fn error(&self, x: RxError) {
-    self.fn_error.call_and_clear_if_available(x);
+    if let Some(f) = self.fn_error.take() {
+      self.fn_next.clear();
+      self.fn_complete.clear();
+      f(x);
+    }
   }
   pub fn complete(&self) {
-    self.fn_complete.call_and_clear_if_available(());
+    if self.fn_error.take().is_some() {
+      self.fn_next.clear();
+      if let Some(f) = self.fn_complete.take() {
+        f(());
+      }
+    }
   }
   pub fn unsubscribe(&self) {
     self.fn_next.clear();
